@@ -218,6 +218,8 @@ func c14IcDrivers() []*icCfg {
 		{Name: "I4-promote-vs-delete", O: o, Hy: hy(1, 1, false), Pre: demoted, Scripts: [][]icOp{{H(1)}, {D(1)}}, Post: []icOp{W, Z, H(1)}},
 		{Name: "I5-two-workers", O: o, Hy: hy(2, 1, false), Pre: []icOp{T(1), T(2), T(3), W}, Scripts: [][]icOp{{T(1)}, {H(2)}}, Post: []icOp{W, Z, H(1), H(2)}},
 		{Name: "I6-slow-secondary", O: o, Hy: hy(1, 1, true), Pre: demoted, Scripts: [][]icOp{{H(1)}, {T(1), D(1)}}, Post: []icOp{W, Z, H(1)}},
+		// a Delete overlapping the demotion of the same key (the worker is copying the queued entry), then a lookup
+		{Name: "I8-worker-vs-delete", O: o, Hy: hy(1, 1, true), Pre: queued, Scripts: [][]icOp{{D(1)}, {H(2)}}, Post: []icOp{W, Z, H(1)}},
 		{Name: "I7-coin", O: o, Hy: hy(1, 0.5, false), Pre: demoted, Scripts: [][]icOp{{T(1), T(2)}, {H(1)}}, Post: []icOp{W, Z, H(1)}},
 	}
 }
